@@ -92,6 +92,7 @@ ROLES = {
     "linker-script-input-path": "path-inside-linker-script",
     "thin-archive-member": "thin-archive-member",
     "save-dir-path": "save-dir-path",
+    "sysroot-script": "path-inside-sysroot-script",
 }
 SHAPES = ["relative", "absolute", "dotdot", "symlink-dir"]
 
@@ -237,6 +238,16 @@ def build_case(ctx, objs, sand, role, cls, shape, r):
     elif role == "save-dir-path":
         put(objs["b"], "b.o")
         args.append("b.o")
+    elif role == "sysroot-script":
+        # the cross-toolchain layout: a linker script inside the sysroot names libraries by absolute
+        # paths, which the linker resolves inside the sysroot
+        sr = h + "-sysroot"
+        os.makedirs(os.path.join(work, sr, "usr", "lib"))
+        tools.make_archive(os.path.join(work, sr, "usr", "lib", "libfoo1.a"), [objs["b"]])
+        write(os.path.join(work, sr, "usr", "lib", "libscr.so"),
+              f"/* GNU ld script */\n{r.choice(['GROUP', 'INPUT'])} ( /usr/lib/libfoo1.a )\n")
+        sp = shape_path(work, sr, shape)
+        args += ["--sysroot=" + sp, "-L", os.path.join(sp, "usr", "lib"), "-lscr"]
     else:
         raise AssertionError(role)
     if shared:
